@@ -5,6 +5,7 @@ CONSTANTS
   Resources <- Res
   Globals <- NoGlobals
   Data0 <- D2
+  LoneSpelled <- LoneSet
   Styles <- Styles1
 INVARIANTS RefInv ReversalInv CountInv RoundTripInv ExpansionInv Emit
 CHECK_DEADLOCK FALSE
